@@ -3,6 +3,7 @@ package props
 import (
 	"fmt"
 	"go/token"
+	"sort"
 	"math/big"
 	"strings"
 
@@ -418,6 +419,7 @@ func checkC04(r *core.Run) {
 	}
 	// the block's flags are those of its height also on the reorganisation / re-apply paths (shared with C06)
 	c06FlagsAfterHeight(r, p, "R-C04-scripts")
+	c04DeleteBatches(r, p)
 	// subsidy schedule
 	if gr := p.Func("lib/btc.GetBlockReward"); gr != nil {
 		okS := false
@@ -676,4 +678,96 @@ func checkC04(r *core.Run) {
 		}
 		r.Check(okU, "R-C04-refusal", "unlink-on-error", p.Pos(cb.Pos()), "the refused block's tree node is removed", "a refused block's node stays linked in the block tree")
 	}
+}
+
+// c04DeleteBatches: the outputs a block spends are removed from the set by worker goroutines that each get
+// a batch of the list of spent records. Every record must be in exactly one batch: a full batch is handed
+// over when the counter reaches width-1 (the record just appended is the width-th), it is the slice
+// [offs : offs+width], offs advances by width and the counter restarts; what is left (counter > 0) goes out
+// as [offs:]. A counter test of "== width" hands over width records when width+1 have accumulated and, when
+// the list ends there, never removes the last one - a later block can spend it again.
+func c04DeleteBatches(r *core.Run, p *core.Program) {
+	const rule = "R-C04-refusal"
+	fn := p.Func("lib/utxo.(*UnspentDB).commit")
+	if fn == nil {
+		r.Fail(rule, "spent-records-all-deleted", "-", "commit not found")
+		return
+	}
+	var probs []string
+	nFull, nRest := 0, 0
+	for _, b := range fn.Blocks {
+		for _, ins := range b.Instrs {
+			g, ok := ins.(*ssa.Go)
+			if !ok || len(g.Call.Args) != 1 {
+				continue
+			}
+			sl, ok := g.Call.Args[0].(*ssa.Slice)
+			if !ok || !strings.Contains(sl.X.Type().String(), "one_del_rec") {
+				continue
+			}
+			cs := an.DomConds(b)
+			if sl.High != nil {
+				// full batch: High = Low + W
+				hb, ok := sl.High.(*ssa.BinOp)
+				if !ok || hb.Op != token.ADD || hb.X != sl.Low {
+					probs = append(probs, "a batch is handed over as "+an.Expr(sl))
+					continue
+				}
+				w, isC := an.ConstOf(hb.Y)
+				if !isC {
+					probs = append(probs, "the batch width is not a constant")
+					continue
+				}
+				nFull++
+				okCnt := false
+				for _, dc := range cs {
+					bo, isB := dc.If.Cond.(*ssa.BinOp)
+					if !isB || bo.Op != token.EQL || !dc.True {
+						continue
+					}
+					if k, isK := an.ConstOf(bo.Y); isK {
+						if _, isPhi := bo.X.(*ssa.Phi); isPhi {
+							if k.Int64()+1 == w.Int64() {
+								okCnt = true
+							} else {
+								probs = append(probs, fmt.Sprintf("a batch of %d records is handed over when the counter equals %d (%d records have accumulated)", w.Int64(), k.Int64(), k.Int64()+1))
+								okCnt = true
+							}
+						}
+					}
+				}
+				if !okCnt {
+					probs = append(probs, "the full-batch hand-over is not controlled by a counter test")
+				}
+				// offs advances by the same width
+				adv := false
+				for _, x := range b.Instrs {
+					if a, ok := x.(*ssa.BinOp); ok && a.Op == token.ADD && a.X == sl.Low {
+						if k, isK := an.ConstOf(a.Y); isK && k.Int64() == w.Int64() {
+							adv = true
+						}
+					}
+				}
+				if !adv {
+					probs = append(probs, "the offset does not advance by the batch width")
+				}
+			} else {
+				nRest++
+				okRest := false
+				for _, dc := range cs {
+					if strings.HasSuffix(dc.Cond, " > 0)") && dc.True {
+						okRest = true
+					}
+				}
+				if !okRest {
+					probs = append(probs, "the remaining records are not handed over whenever the counter is positive")
+				}
+			}
+		}
+	}
+	if nFull != 1 || nRest != 1 {
+		probs = append(probs, fmt.Sprintf("%d full-batch and %d remainder hand-overs (one each expected)", nFull, nRest))
+	}
+	sort.Strings(probs)
+	r.Check(len(probs) == 0, rule, "spent-records-all-deleted", p.Pos(fn.Pos()), "every spent record is in exactly one delete batch (full batches at counter = width-1, remainder when counter > 0)", strings.Join(probs, "; "))
 }
